@@ -45,13 +45,19 @@ VNew(st, ev) ==
        IN IF ~NoEntropy(ev) THEN Bad("C11: the constructor drew entropy", "", st2)
           ELSE Good(st2)
 
+(* ev.entfail: the entropy function handed to the instance raised during this call *)
+EntFailed(ev) == "entfail" \in DOMAIN ev
 VStart(st, ev) ==
   LET s == st[ev.inst]
       o == Obs(ev.out)
   IN IF s.started
-     THEN IF ~NoEntropy(ev) THEN Bad("C11: entropy drawn by a start() that must raise", "", st)
+     THEN IF ~NoEntropy(ev) \/ EntFailed(ev) THEN Bad("C11: entropy drawn by a start() that must raise", "", st)
           ELSE IF Matches(o, Err("OnlyCallStartOnce")) THEN Good(st)
           ELSE Bad("C07: start() on a started or restored instance", ShowSet({Err("OnlyCallStartOnce")}), st)
+     ELSE IF EntFailed(ev) /\ o.t = "err"
+     THEN Good(Put(st, ev.inst, StartFailedNext(s)))           \* no message, no scalar: limbo
+     ELSE IF s.limbo /\ NoEntropy(ev) /\ o = Err("OnlyCallStartOnce")
+     THEN Good(st)                                              \* the failed call counted as the start()
      ELSE LET r == GRandomScalar(s.ps.grp, EntLog(ev))
           IN IF ~r.ok
              THEN Bad("C11: " \o r.why, "", Put(st, ev.inst, [s EXCEPT !.started = TRUE]))
